@@ -145,16 +145,22 @@ fn check(ctx: &mut Ctx, idx: u64, desc: &str, tree: &HNode, flat: &Flat, game: &
     let back = game.from_named(strat.as_named()).map_err(|e| ("roundtrip-rejected".to_string(), format!("from_named(as_named(s)) failed: {:?} ({})", e, src)))?;
     if back != *strat {
         let d2 = bridge::dense_profile(game, flat, &back).map_err(|e| ("dense-mismatch".to_string(), e))?;
+        // "up to rounding in the last place": re-importing divides by the sum of the listed
+        // probabilities, and a sum of n terms is 1 only up to about n/2 ulp - so the allowance
+        // grows with the width of the infoset (1e-15 up to a handful of actions)
         let mut worst = 0.0f64;
+        let mut worst_excess = 0.0f64;
         for p in 0..2 {
             for (a, b) in dense[p].iter().zip(d2[p].iter()) {
+                let allow = 1e-15f64.max(a.len() as f64 * f64::EPSILON);
                 for (x, y) in a.iter().zip(b.iter()) {
                     worst = worst.max((x - y).abs());
+                    worst_excess = worst_excess.max((x - y).abs() - allow);
                 }
             }
         }
         ctx.max("roundtrip_max_abs_diff", worst);
-        if worst > 1e-15 {
+        if worst_excess > 0.0 {
             return Err(("roundtrip-differs".into(), format!("from_named(as_named(s)) differs from s by {} ({})", worst, src)));
         }
         ctx.count("roundtrip_equal_up_to_last_place", 1);
@@ -244,7 +250,7 @@ pub fn run(ctx: &mut Ctx) {
         }
     });
     ctx.finish(crate::report::extra(
-        "cases = (game, profile): G1/G2 games x profiles from {solver output of a random method/preset/budget, truncated solver output, from_named of random/pure/sparse/near-uniform/tiny/skewed profiles, the same imported with each infoset's weights rescaled to units from {2^-1020..2^-1065, 1e-300, 1e-20, 3, 1e300}}. The expected named view is built from the dense stored probabilities (hook verif_probs) and the harness tree; as_named must list every infoset once with exactly the positive-probability actions (single-action infosets as (action,1)), len() of the infoset iterator and of every action iterator is queried before every next() and must equal the number of items still to come, and from_named/from_named_eq(as_named(s)) must reproduce s (bit-identical or within 1e-15). History: in 30% of the cases the value just exported (or a clone of it) is truncated at a threshold taken from its own probabilities and exported again; the second view is judged against the probabilities the value holds then. distinct = hash(tree, stored probabilities); non-trivial = the game has at least one infoset.",
-        &["infoset alignment by name through the public API", "round-trip tolerance 1e-15 absolute on probabilities"],
+        "cases = (game, profile): G1/G2 games x profiles from {solver output of a random method/preset/budget, truncated solver output, from_named of random/pure/sparse/near-uniform/tiny/skewed profiles, the same imported with each infoset's weights rescaled to units from {2^-1020..2^-1065, 1e-300, 1e-20, 3, 1e300}}. The expected named view is built from the dense stored probabilities (hook verif_probs) and the harness tree; as_named must list every infoset once with exactly the positive-probability actions (single-action infosets as (action,1)), len() of the infoset iterator and of every action iterator is queried before every next() and must equal the number of items still to come, and from_named/from_named_eq(as_named(s)) must reproduce s (bit-identical, or within max(1e-15, width x 2.2e-16) per probability of an infoset of that width). History: in 30% of the cases the value just exported (or a clone of it) is truncated at a threshold taken from its own probabilities and exported again; the second view is judged against the probabilities the value holds then. distinct = hash(tree, stored probabilities); non-trivial = the game has at least one infoset.",
+        &["infoset alignment by name through the public API", "round-trip tolerance max(1e-15, infoset width x epsilon) absolute on probabilities"],
     ));
 }
